@@ -99,9 +99,14 @@ def check_corpus(X, y, Q, tmpdir=None):
     if len(set(y)) < 2 or not any(X):
         return None  # outside the textbook model's domain
     try:
-        model = nb_scorer.train_naive_bayes(X, y)
+        Xc = [list(d) for d in X]
+        model = nb_scorer.train_naive_bayes(Xc, list(y))
     except Exception as e:
         return [("fit-raises:" + type(e).__name__, repr(e), None)]
+    if Xc != [list(d) for d in X]:
+        # the token sequences are the caller's data; a model fed from edited sequences is
+        # not the model of "the token sequence" (and the lists would grow on every use)
+        return [("fit-edits-its-input-documents", "documents after fit: {}".format(str(Xc)[:300]), None)]
     ref = RefNB(X, y)
     loaded = None
     if tmpdir is not None:
@@ -113,7 +118,14 @@ def check_corpus(X, y, Q, tmpdir=None):
             fails.append(("save-load-raises:" + type(e).__name__, repr(e), None))
     for q in Q + X[:3]:
         try:
-            got = model.predict_log_proba([q])[0]
+            qc = list(q)
+            got = model.predict_log_proba([qc])[0]
+            if qc != list(q):
+                fails.append(("predict-edits-its-input-document", "{} -> {}".format(q, str(qc)[:200]), q))
+                continue
+            again = model.predict_log_proba([list(q)])[0]
+            if tuple(again) != tuple(got):
+                fails.append(("prediction-not-repeatable", "{} then {}".format(got, again), q))
         except Exception as e:
             fails.append(("predict-raises:" + type(e).__name__, repr(e), q))
             continue
@@ -131,8 +143,8 @@ def check_corpus(X, y, Q, tmpdir=None):
                 fails.append(("save-load-changes-prediction", "{} vs {}".format(got, got2), q))
     # batch prediction = per-document prediction
     try:
-        batch = model.predict_log_proba(Q)
-        single = [model.predict_log_proba([q])[0] for q in Q]
+        batch = model.predict_log_proba([list(q) for q in Q])
+        single = [model.predict_log_proba([list(q)])[0] for q in Q]
         if [tuple(b) for b in batch] != [tuple(s) for s in single]:
             fails.append(("batch-differs-from-single", "{} vs {}".format(batch, single), None))
     except Exception as e:
